@@ -2,7 +2,7 @@
    (evaluated once here, so that props/C10.v stays cheap to re-check). *)
 From Coq Require Import List ZArith NArith Bool Lia.
 From Tink Require Import Bytes Wrap MldsaScalar MldsaScalarProofs MldsaScalarProofs2
-  MldsaKernels MldsaPoly Mldsa MldsaPackProofs MldsaHintProofs MldsaProofs.
+  MldsaKernels MldsaPoly Mldsa MldsaPackProofs MldsaHintProofs MldsaProofs MldsaAlgebraProofs.
 Import ListNotations.
 Local Open Scope Z_scope.
 
@@ -38,3 +38,9 @@ Lemma ex_sigDecode_sigEncode_inhabited :
   p_omega P <= 255 /\ (0 <= gamma1 P < q)%Z /\ length c = ctLen P /\ polys (p_l P) z /\
   length h = p_k P /\ weight h <= p_omega P /\ sigDecode P (sigEncode P c z h) = Some (c, z, h).
 Proof. vm_compute. repeat split; try congruence; try lia; repeat constructor. Qed.
+
+Lemma ex_algebra_inhabited : cmat 1 1 [[zero_poly]] /\ cvec 1 [zero_poly] /\ cpoly zero_poly.
+Proof.
+  assert (V : cvec 1 [zero_poly]) by (split; [reflexivity | repeat constructor; apply cpoly_zero]).
+  repeat split; auto; try reflexivity; try apply cpoly_zero; repeat constructor; try apply cpoly_zero; apply V.
+Qed.
